@@ -156,6 +156,7 @@ def encode_args(params, args, reg_mask_style='mask'):
         is_reg = kind in ('ri', 'rf')
         if is_reg:
             if p.imm or p.is_string or p.is_jump or p.arg0: raise Unencodable('register where only an immediate is allowed')
+            if bit >= 16: raise Unencodable('the parameter mask has 16 bits: a register in parameter 17+ cannot be marked')
             mask |= 1 << bit
         bit += 1
         if p.is_int:
